@@ -38,13 +38,22 @@ Definition GT (s : lshared) : Prop :=
       forall z, In z (ids_rec (old_rec (lsecs s) p0)) ->
                 ~ In z (gone_rec (new_rec (old_rec (lsecs s) p1) p0)) -> In z vis)).
 
+(* what the record of finished calls says: a call that has a section began before the section was executed and ended
+   after it, and the section at that position of the record is the calling thread's *)
+Definition GC (s : lshared) : Prop :=
+  forall t b i e, In (t, b, i, e) (lcrec s) ->
+    e <= length (lsecs s) /\
+    (i = 0 \/ (b < i /\ i <= e /\ exists sc r, nth_error (rev (lsecs s)) (i - 1) = Some (t, sc, r))).
+
 Definition GI (s : lshared) : Prop :=
   lgrp s = replay (lsecs s) /\ results_ok (lsecs s) /\
   (wrapped s \/ rec_ok (lsecs s)) /\
   lbad s = false /\
   (lcc s < W32)%N /\
   (wrapped s \/ ctrs_le (lcc s) (lgrp s) (ids_rec (lsecs s))) /\
-  GT s.
+  GT s /\
+  (wrapped s \/ lunord s = false) /\
+  GC s.
 
 (* the sections of one thread, newest first; the results one thread has reported, newest first *)
 Definition tsecs (t : nat) (s : lshared) : list (nat * sec * bool) := filter (fun e => Nat.eqb (eth e) t) (lsecs s).
@@ -150,6 +159,10 @@ Definition veff (t : nat) (i : linstr) (s : lshared) (l : llocals) : lshared * l
   | _ => (s, l)
   end.
 
+(* at the end of a call: the stamps the call is recorded with *)
+Definition EndOk (t : nat) (s : lshared) (l : llocals) : Prop :=
+  lsi l = 0 \/ (lb0 l < lsi l /\ lsi l <= length (lsecs s) /\ exists sc r, nth_error (rev (lsecs s)) (lsi l - 1) = Some (t, sc, r)).
+
 Section CALC.
 Variable t : nat.
 
@@ -166,9 +179,10 @@ Fixpoint wci (i : linstr) (K : lshared -> llocals -> Prop) (s : lshared) (l : ll
         (c s1 l = false ->
          (fix wl (cd : list linstr) (K : lshared -> llocals -> Prop) (s : lshared) (l : llocals) {struct cd} : Prop :=
             match cd with [] => K s l | j :: r => wci j (wl r K) s l end) b K s1 l)
-  | JLoop => lown s <> Some t /\ LoopI s l /\ forall s1 l1, Rely t s s1 -> LoopI s1 l1 -> lcur l1 = None -> K s1 l1
-  | JRes => forall s1, Rely t s s1 -> K (ls_log s1 (LaRes t (lresb l))) l
-  | JDone => forall s1, Rely t s s1 -> K (ls_log s1 (LaDone t)) l
+  | JLoop => lown s <> Some t /\ LoopI s l /\
+             forall s1 l1, Rely t s s1 -> LoopI s1 l1 -> lcur l1 = None -> lsi l1 = lsi l -> K s1 l1
+  | JRes => forall s1, Rely t s s1 -> EndOk t s1 l /\ K (call_end t (ls_log s1 (LaRes t (lresb l))) l) l
+  | JDone => forall s1, Rely t s s1 -> EndOk t s1 l /\ K (call_end t (ls_log s1 (LaDone t)) l) l
   | JLock => forall s1, Rely t s s1 -> lown s1 <> Some t /\ K (fst (veff t i s1 l)) (snd (veff t i s1 l))
   | JUnlock => forall s1, Rely t s s1 -> lown s1 = Some t /\ K (fst (veff t i s1 l)) (snd (veff t i s1 l))
   | _ => forall s1, Rely t s s1 -> K (fst (veff t i s1 l)) (snd (veff t i s1 l))
@@ -218,7 +232,9 @@ Proof.
     + intros s1 HR. destruct (H s1 HR) as [H1 H3]. split; [exact H1|apply HK; exact H3].
     + intros s1 HR. destruct (H s1 HR) as [H1 H3]. split; [exact H1|apply HK; exact H3].
     + intros s1 HR HG. destruct (H s1 HR HG) as [H0 [H1 H3]]. split; [exact H0|]. split; [exact H1|apply HK; exact H3].
-    + destruct H as [H0 [HL H]]. split; [exact H0|]. split; [exact HL|]. intros s1 l1 HR A B. apply HK. apply H; assumption.
+    + destruct H as [H0 [HL H]]. split; [exact H0|]. split; [exact HL|]. intros s1 l1 HR A B C. apply HK. apply H; assumption.
+    + intros s1 HR. destruct (H s1 HR) as [H1 H3]. split; [exact H1|apply HK; exact H3].
+    + intros s1 HR. destruct (H s1 HR) as [H1 H3]. split; [exact H1|apply HK; exact H3].
   - intros K K' s l HK H. rewrite wci_if in *. intros s1 HR. destruct (H s1 HR) as [H1 H2]. split; intros Hc.
     + eapply wcl_mono_F; eauto.
     + eapply wcl_mono_F; eauto.
@@ -260,12 +276,12 @@ Lemma wrapped_log s a : wrapped s -> wrapped (ls_log s a).
 Proof. intros [u H]. exists u. right. exact H. Qed.
 
 Lemma GI_eq s s' :
-  lgrp s' = lgrp s -> lsecs s' = lsecs s -> lbad s' = lbad s -> lcc s' = lcc s -> ltravs s' = ltravs s ->
-  (wrapped s -> wrapped s') -> GI s -> GI s'.
+  lgrp s' = lgrp s -> lsecs s' = lsecs s -> lbad s' = lbad s -> lcc s' = lcc s -> ltravs s' = ltravs s -> lunord s' = lunord s ->
+  lcrec s' = lcrec s -> (wrapped s -> wrapped s') -> GI s -> GI s'.
 Proof.
-  intros A B D E F C [G1 [G2 [G3 [G4 [G5 [G6 G7]]]]]]. unfold GI, GT. rewrite A, B, D, E, F.
+  intros A B D E F U V C [G1 [G2 [G3 [G4 [G5 [G6 [G7 [G8 G9]]]]]]]]. unfold GI, GT, GC. rewrite A, B, D, E, F, U, V.
   split; [exact G1|]. split; [exact G2|]. split; [destruct G3; auto|]. split; [exact G4|]. split; [exact G5|].
-  split; [destruct G6; auto|].
+  split; [destruct G6; auto|]. split; [|split; [destruct G8; auto|exact G9]].
   intros t p0 p1 vis Hin. destruct (G7 t p0 p1 vis Hin) as [X [Y Z]]. split; [exact X|]. split; [exact Y|]. destruct Z; auto.
 Qed.
 
@@ -303,7 +319,7 @@ Qed.
 (* the increment of the counter *)
 Lemma inc_GI t s : GI s -> GI (fst (veff t JInc s ll0)).
 Proof.
-  intros [G1 [G2 [G3 [G4 [G5 [G6 G7]]]]]]. cbn [veff fst].
+  intros [G1 [G2 [G3 [G4 [G5 [G6 [G7 [G8 G9]]]]]]]]. cbn [veff fst].
   set (v := ((lcc s + 1) mod W32)%N).
   assert (W : wrapped s -> wrapped (ls_log (ls_cc s v) (LaInc t v))) by (intros [u H]; exists u; right; exact H).
   assert (Hv : (v < W32)%N) by (apply N.mod_lt; unfold W32; discriminate).
@@ -311,14 +327,17 @@ Proof.
   - (* the counter wraps *)
     assert (W0 : wrapped (ls_log (ls_cc s v) (LaInc t v))).
     { exists t. left. unfold v. rewrite E, N.mod_same by (unfold W32; discriminate). reflexivity. }
-    unfold GI, GT. cbn [lgrp lsecs lbad lcc ltravs ls_log ls_cc].
+    unfold GI, GT. cbn [lgrp lsecs lbad lcc ltravs lunord lcrec ls_log ls_cc].
     split; [exact G1|]. split; [exact G2|]. split; [left; exact W0|]. split; [exact G4|]. split; [exact Hv|]. split; [left; exact W0|].
+    split; [|split; [left; exact W0|exact G9]].
     intros u p0 p1 vis Hin. destruct (G7 u p0 p1 vis Hin) as [X [Y _]]. split; [exact X|]. split; [exact Y|left; exact W0].
   - assert (Ev : v = (lcc s + 1)%N) by (unfold v; apply N.mod_small; lia).
-    unfold GI, GT. cbn [lgrp lsecs lbad lcc ltravs ls_log ls_cc].
-    split; [exact G1|]. split; [exact G2|]. split; [destruct G3; auto|]. split; [exact G4|]. split; [exact Hv|]. split.
+    unfold GI, GT. cbn [lgrp lsecs lbad lcc ltravs lunord lcrec ls_log ls_cc].
+    split; [exact G1|]. split; [exact G2|]. split; [destruct G3; auto|]. split; [exact G4|]. split; [exact Hv|]. split; [|split; [|split]].
     + destruct G6 as [G6|G6]; [left; auto|right]. eapply ctrs_le_mono; [|exact G6]. lia.
     + intros u p0 p1 vis Hin. destruct (G7 u p0 p1 vis Hin) as [X [Y Z]]. split; [exact X|]. split; [exact Y|]. destruct Z; auto.
+    + destruct G8; auto.
+    + exact G9.
 Qed.
 
 Lemma inc_rely0 t u s : GI s -> Rely0 u s (fst (veff t JInc s ll0)).
@@ -460,6 +479,39 @@ Proof.
   rewrite !old_rec_cons by lia. exact Z.
 Qed.
 
+Lemma GC_cons s s' e :
+  lsecs s' = e :: lsecs s -> lcrec s' = lcrec s -> GC s -> GC s'.
+Proof.
+  intros A B G u b0 i e0 Hin. rewrite B in Hin. destruct (G u b0 i e0 Hin) as [X Z]. rewrite A. cbn [length rev].
+  split; [lia|]. destruct Z as [Z|[Z1 [Z2 [sc [r Z3]]]]]; [left; exact Z|right].
+  split; [exact Z1|]. split; [exact Z2|]. exists sc, r. rewrite nth_error_app1; [exact Z3|rewrite rev_length; lia].
+Qed.
+
+(* the stamps of the call in progress: it began when B sections had been executed; its own section, once executed, stands
+   at position i of the record *)
+Definition Bt (B : nat) (I : option (nat * (nat * sec * bool))) (s : lshared) : Prop :=
+  B <= length (lsecs s) /\
+  match I with
+  | None => True
+  | Some (i, e) => B < i /\ i <= length (lsecs s) /\ nth_error (rev (lsecs s)) (i - 1) = Some e
+  end.
+
+Lemma Bt_grow B I s s1 : Bt B I s -> (exists L, lsecs s1 = L ++ lsecs s) -> Bt B I s1.
+Proof.
+  intros [A C] [L E]. unfold Bt. rewrite E. split; [rewrite app_length; lia|].
+  destruct I as [[i e]|]; [|exact I]. destruct C as [C0 [C1 C2]]. split; [exact C0|]. split; [rewrite app_length; lia|].
+  rewrite rev_app_distr. rewrite nth_error_app1; [exact C2|rewrite rev_length; lia].
+Qed.
+
+Lemma rely_grows u a b : Rely u a b -> exists L, lsecs b = L ++ lsecs a.
+Proof. intros [[_ [_ [_ [_ [G _]]]]] _]. exact G. Qed.
+
+Lemma Bt_end B i (sc : sec) (r : bool) s l :
+  Bt B (Some (i, (t, sc, r))) s -> lb0 l = B -> lsi l = i -> EndOk t s l.
+Proof.
+  intros [_ [C0 [C1 C2]]] E1 E2. right. rewrite E1, E2. split; [exact C0|]. split; [exact C1|]. eauto.
+Qed.
+
 (* a section of thread t *)
 Lemma sec_ok X Y (W : Prop) Kb H s sc g1 b :
   GI s -> At X Y W Kb H s -> sec_step (lgrp s) sc = (g1, b) -> (W -> sec_counter_ok sc) -> (ctr_of sc <= Kb)%N ->
@@ -467,8 +519,8 @@ Lemma sec_ok X Y (W : Prop) Kb H s sc g1 b :
 Proof.
   intros HG0 [A [B [C [E D]]]] Es HW HK.
   assert (GI' : GI (ls_sec (ls_grp s g1) (t, sc, b))).
-  { destruct HG0 as [G1 [G2 [G3 [G4 [G5 [G6 G7]]]]]]. unfold GI.
-    cbn [lgrp lsecs lbad lcc ls_sec ls_grp replay results_ok esec eres fst snd].
+  { destruct HG0 as [G1 [G2 [G3 [G4 [G5 [G6 [G7 [G8 G9]]]]]]]]. unfold GI.
+    cbn [lgrp lsecs lbad lcc lunord ls_sec ls_grp replay results_ok esec eres fst snd].
     rewrite <- G1, Es. cbn [fst snd]. split; [reflexivity|]. split; [split; [reflexivity|exact G2]|].
     assert (Ok : wrapped s \/ rec_ok ((t, sc, b) :: lsecs s)).
     { destruct G3 as [G3|G3]; [left; exact G3|]. destruct C as [C|C]; [|left; exact C].
@@ -480,7 +532,7 @@ Proof.
       rewrite ids_rec_cons. cbn [esec fst snd]. rewrite <- G1.
       replace g1 with (fst (sec_step (lgrp s) sc)) by (rewrite Es; reflexivity).
       apply sec_ctr_bound; auto; [rewrite G1; apply ginv_replay; exact Hr|lia].
-    - eapply (GT_cons s); [reflexivity|reflexivity|auto|exact G7]. }
+    - split; [eapply (GT_cons s); [reflexivity|reflexivity|auto|exact G7]|]. split; [exact G8|]. eapply (GC_cons s); [reflexivity|reflexivity|exact G9]. }
   split; [split|].
   - intros _. exact GI'.
   - intros u Hu. split; [|reflexivity]. split; [|split; [reflexivity|split; [auto|split; [intros _; exact GI'|split; [exists [(t, sc, b)]; reflexivity|right; cbn [lcc ls_sec ls_grp]; lia]]]]].
@@ -493,9 +545,9 @@ Qed.
 (* a step that leaves the list, the records, the log, the counter and the mutex alone *)
 Lemma quiet_guar s s' :
   lgrp s' = lgrp s -> lsecs s' = lsecs s -> llog s' = llog s -> lown s' = lown s -> lbad s' = lbad s ->
-  lcc s' = lcc s -> ltravs s' = ltravs s -> Guar t s s' /\ Rely t s s'.
+  lcc s' = lcc s -> ltravs s' = ltravs s -> lunord s' = lunord s -> lcrec s' = lcrec s -> Guar t s s' /\ Rely t s s'.
 Proof.
-  intros A B C D E F G.
+  intros A B C D E F G U V.
   assert (W : wrapped s -> wrapped s') by (unfold wrapped; rewrite C; auto).
   assert (GG : GI s -> GI s') by (apply GI_eq; auto).
   assert (R : forall u, Rely u s s').
@@ -513,13 +565,36 @@ Lemma trav_guar s u0 q0 q1 v0 :
 Proof.
   intros HG He. set (e := (u0, q0, q1, v0)).
   assert (GG : GI (ls_trav s e)).
-  { destruct HG as [G1 [G2 [G3 [G4 [G5 [G6 G7]]]]]]. unfold GI. cbn [lgrp lsecs lbad lcc ls_trav].
-    split; [exact G1|]. split; [exact G2|]. split; [exact G3|]. split; [exact G4|]. split; [exact G5|]. split; [exact G6|].
+  { destruct HG as [G1 [G2 [G3 [G4 [G5 [G6 [G7 G8]]]]]]]. unfold GI, GC. cbn [lgrp lsecs lbad lcc lunord lcrec ls_trav].
+    split; [exact G1|]. split; [exact G2|]. split; [exact G3|]. split; [exact G4|]. split; [exact G5|]. split; [exact G6|]. split; [|exact G8].
     intros u p0 p1 vis Hin. cbn [ltravs ls_trav] in Hin. destruct Hin as [Hin|Hin]; [inversion Hin; subst; exact He|exact (G7 u p0 p1 vis Hin)]. }
   assert (R : forall u, Rely u s (ls_trav s e)).
   { intros u. split; [|reflexivity]. split; [reflexivity|]. split; [reflexivity|]. split; [auto|]. split; [intros _; exact GG|].
     split; [exists []; reflexivity|right; cbn [lcc ls_trav]; lia]. }
   split; [split|]; auto.
+Qed.
+
+(* the end of a call: its record *)
+Lemma callend_guar s l : EndOk t s l -> Guar t s (call_end t s l) /\ Rely t s (call_end t s l).
+Proof.
+  intros He.
+  assert (GG : GI s -> GI (call_end t s l)).
+  { intros [G1 [G2 [G3 [G4 [G5 [G6 [G7 [G8 G9]]]]]]]]. unfold GI, GC, call_end. cbn [lgrp lsecs lbad lcc lunord lcrec ltravs ls_call].
+    split; [exact G1|]. split; [exact G2|]. split; [exact G3|]. split; [exact G4|]. split; [exact G5|]. split; [exact G6|].
+    split; [exact G7|]. split; [exact G8|].
+    intros u b0 i e0 [Hin|Hin]; [|exact (G9 u b0 i e0 Hin)]. inversion Hin; subst. split; [lia|].
+    destruct He as [He|[H1 [H2 H3]]]; [left; exact He|right]. split; [exact H1|]. split; [exact H2|exact H3]. }
+  assert (R : forall u, Rely u s (call_end t s l)).
+  { intros u. split; [|reflexivity]. split; [reflexivity|]. split; [reflexivity|]. split; [auto|]. split; [exact GG|].
+    split; [exists []; reflexivity|right; cbn [lcc call_end ls_call]; lia]. }
+  split; [split|]; auto.
+Qed.
+
+Lemma sec_bt B s sc g1 b :
+  Bt B None s -> Bt B (Some (S (length (lsecs s)), (t, sc, b))) (ls_sec (ls_grp s g1) (t, sc, b)).
+Proof.
+  intros [A _]. unfold Bt. cbn [lsecs ls_sec ls_grp length rev]. split; [lia|]. split; [lia|]. split; [lia|].
+  rewrite nth_error_app2; rewrite rev_length; [|lia]. replace (S (length (lsecs s)) - 1 - length (lsecs s)) with 0 by lia. reflexivity.
 Qed.
 
 Lemma post_with_sec d c r X Y W Kb Yn sc b s l :
@@ -658,7 +733,10 @@ Ltac hv :=
                 | let Hown := fresh in
                   assert (Hown : Rely t s0 a) by own;
                   apply (fun h => At_rely t X Y W Kb H s0 s1 h (Rely_trans t s0 a s1 Hown HR)) in HA; clear Hown ]
-      end
+      end;
+      try match goal with
+          | [ HB : Bt ?B ?I ?sx |- _ ] => apply (fun h => Bt_grow B I sx s1 h (rely_grows t a s1 HR)) in HB
+          end
   end; clear HR.
 
 Ltac quiet :=
@@ -683,7 +761,7 @@ Ltac lockedp :=
 (* a piece of local code: the shared state afresh, the global invariant there *)
 Ltac lc := hv; let HG := fresh "HG" in intros HG; lockedp.
 
-Ltac dosec HA HG :=
+Ltac dosec HA HG HB :=
   match goal with
   | [ |- context [ sec_step (lgrp ?s) ?sc ] ] =>
       let g1 := fresh "g" in let b := fresh "b" in let E := fresh "E" in
@@ -693,50 +771,79 @@ Ltac dosec HA HG :=
       | At ?t ?X ?Y ?W ?Kb ?H s =>
           destruct (sec_ok t X Y W Kb H s sc g1 b HG HA E) as [G HA2];
           [try (intros H0; exact H0); try (intros _; exact I)|cbn [ctr_of]; lia|];
-          split; [exact G|]; clear HA G
+          split; [exact G|]; clear HA G;
+          match type of HB with Bt ?B None s => apply (sec_bt t B s sc g1 b) in HB end
       end
   end.
 
+(* the end of the call: its stamps, then the facts behind the record *)
+Ltac fin HA HB :=
+  hv;
+  match type of HB with
+  | Bt ?B (Some (?i, (?t, ?sc, ?r))) ?s => split; [eapply (Bt_end t B i sc r s); [exact HB|reflexivity|reflexivity]|]
+  | Bt ?B None ?s => split; [left; reflexivity|]
+  end.
+
+(* ... and the step over the record of the call *)
+Ltac over_end HA HB :=
+  match goal with
+  | [ |- Post ?t _ _ (call_end ?t ?s0 ?l) _ ] =>
+      let He := fresh in
+      assert (He : EndOk t s0 l) by
+        (match type of HB with
+         | Bt ?B (Some (?i, (_, ?sc, ?r))) _ => eapply (Bt_end t B i sc r); [exact HB|reflexivity|reflexivity]
+         | Bt _ None _ => left; reflexivity
+         end);
+      match type of HA with
+      | At _ ?X ?Y ?W ?Kb ?H s0 => apply (fun h => At_rely t X Y W Kb H s0 _ h (proj2 (callend_guar t s0 l He))) in HA
+      end; clear He
+  end.
+
 Lemma call_ok t P c r s l0 :
-  Post t P (c :: r) s l0 -> wcl t (lcode_of c) (Post t P r) s ll0.
+  Post t P (c :: r) s l0 -> wcl t (lcode_of c) (Post t P r) s (ll_begin (length (lsecs s))).
 Proof.
   intros [HO [d [HP [HF HY]]]].
   remember (tsecs t s) as X eqn:EX. remember (rl t s) as Y eqn:EY.
   assert (HA : At t X Y True 0%N false s) by (split; [auto|split; [auto|split; [left; exact I|split; [right; lia|exact HO]]]]).
-  clear EX EY HO.
+  assert (HB : Bt (length (lsecs s)) None s) by (split; [lia|exact I]).
+  remember (length (lsecs s)) as B0 eqn:EB0.
+  clear EX EY HO EB0.
   destruct c as [cb h|cb h|cb hb h|h|h| |a|];
-    cbn [lcode_of draw app wcl wci do_sec veff fst snd lk ln lresb ll0 ll_k ll_n ll_resb ll_before ll_capt lbefore lcur lcapt lvis lph lp0].
+    cbn [lcode_of draw app wcl wci do_sec veff fst snd lk ln lresb ll_begin ll_k ll_n ll_resb ll_before ll_capt ll_si lbefore lcur lcapt lvis lph lp0 lb0 lsi].
   - (* append *)
-    hv. apply (At_inc t X Y True 0%N false s0 ll0) in HA. cbn [veff fst snd lk ll_k] in HA.
-    lck. lc. dosec HA HG. ulk. lc. split; [quiet|]. hv.
-    apply (fun h => At_rely _ _ _ _ _ _ _ _ h (own_done t s5)) in HA0.
+    hv. apply (At_inc t X Y True 0%N false s0 (ll_begin B0)) in HA. cbn [veff fst snd lk ll_k ll_begin] in HA.
+    lck. lc. dosec HA HG HB. ulk. lc. split; [quiet|]. fin HA0 HB.
+    apply (fun h => At_rely _ _ _ _ _ _ _ _ h (own_done t s5)) in HA0. over_end HA0 HB.
     refine (post_with_sec t P d _ r X Y _ _ _ _ _ _ _ HP HF HY _ _ HA0); reflexivity.
   - (* prepend *)
-    hv. apply (At_inc t X Y True 0%N false s0 ll0) in HA. cbn [veff fst snd lk ll_k] in HA.
-    lck. lc. dosec HA HG. ulk. lc. split; [quiet|]. hv.
-    apply (fun h => At_rely _ _ _ _ _ _ _ _ h (own_done t s5)) in HA0.
+    hv. apply (At_inc t X Y True 0%N false s0 (ll_begin B0)) in HA. cbn [veff fst snd lk ll_k ll_begin] in HA.
+    lck. lc. dosec HA HG HB. ulk. lc. split; [quiet|]. fin HA0 HB.
+    apply (fun h => At_rely _ _ _ _ _ _ _ _ h (own_done t s5)) in HA0. over_end HA0 HB.
     refine (post_with_sec t P d _ r X Y _ _ _ _ _ _ _ HP HF HY _ _ HA0); reflexivity.
   - (* insert *)
     lc. split; [quiet|]. hv.
-    apply (At_inc t X Y True 0%N false s1 (ll_before ll0 (reg_of s0 hb))) in HA. cbn [veff fst snd lk ll_k ll_before] in HA.
-    lck. lc. dosec HA HG0. ulk. lc. split; [quiet|]. hv.
-    apply (fun h => At_rely _ _ _ _ _ _ _ _ h (own_done t s6)) in HA0.
+    apply (At_inc t X Y True 0%N false s1 (ll_before (ll_begin B0) (reg_of s0 hb))) in HA. cbn [veff fst snd lk ll_k ll_before ll_begin] in HA.
+    lck. lc. dosec HA HG0 HB. ulk. lc. split; [quiet|]. fin HA0 HB.
+    apply (fun h => At_rely _ _ _ _ _ _ _ _ h (own_done t s6)) in HA0. over_end HA0 HB.
     refine (post_with_sec t P d _ r X Y _ _ _ _ _ _ _ HP HF HY _ _ HA0); reflexivity.
   - (* remove *)
-    lck. lc. dosec HA HG. ulk. hv.
-    apply (At_res t _ _ _ _ _ s3 b) in HA0.
+    lck. lc. dosec HA HG HB. ulk. fin HA0 HB.
+    apply (At_res t _ _ _ _ _ s3 b) in HA0. cbn [lresb ll_si ll_resb].
+    over_end HA0 HB.
     refine (post_with_sec t P d _ r X Y _ _ _ _ _ _ _ HP HF HY _ _ HA0); reflexivity.
   - (* ownsHandle *)
-    lck. lc. dosec HA HG. ulk. hv.
-    apply (At_res t _ _ _ _ _ s3 b) in HA0.
+    lck. lc. dosec HA HG HB. ulk. fin HA0 HB.
+    apply (At_res t _ _ _ _ _ s3 b) in HA0. cbn [lresb ll_si ll_resb].
+    over_end HA0 HB.
     refine (post_with_sec t P d _ r X Y _ _ _ _ _ _ _ HP HF HY _ _ HA0); reflexivity.
   - (* empty *)
-    lc. dosec HA HG. hv.
-    apply (At_res t _ _ _ _ _ s1 b) in HA0.
+    lc. dosec HA HG HB. fin HA0 HB.
+    apply (At_res t _ _ _ _ _ s1 b) in HA0. cbn [lresb ll_si ll_resb].
+    over_end HA0 HB.
     refine (post_with_sec t P d _ r X Y _ _ _ _ _ _ _ HP HF HY _ _ HA0); reflexivity.
   - (* invoke *)
     lck. lc. split; [quiet|].
-    pose proof (trpre_start s1 ll0 HG) as HT.
+    pose proof (trpre_start s1 (ll_begin B0) HG) as HT.
     (* unlock *)
     intros s2 HR2. apply (fun h => At_rely _ _ _ _ _ _ _ _ h HR2) in HA.
     apply (fun h => TRpre_rely t _ _ _ h (proj1 HR2)) in HT. clear HR2.
@@ -750,18 +857,23 @@ Proof.
     apply (trinv_capture t) in HT.
     (* the loop *)
     split; [exact (At_free _ _ _ _ _ _ HA)|]. split; [split; [exact HT|reflexivity]|].
-    intros s4 l4 HR4 [HT4 _] Hc4. apply (fun h => At_rely _ _ _ _ _ _ _ _ h HR4) in HA. clear HR4 HT.
+    intros s4 l4 HR4 [HT4 _] Hc4 Hs4. apply (fun h => At_rely _ _ _ _ _ _ _ _ h HR4) in HA. clear HR4 HT.
+    cbn [lsi ll_capt ll_start ll_begin] in Hs4.
     (* the record of the traversal *)
     intros s5 HR5 HG5. apply (fun h => At_rely _ _ _ _ _ _ _ _ h HR5) in HA.
     apply (fun h => TRinv_rely t _ _ _ h (proj1 HR5)) in HT4. clear HR5.
     split; [intros X0; discriminate X0|].
     destruct (trav_guar t s5 t (lp0 l4) (length (lsecs s5)) (lvis l4) HG5 (trinv_end s5 l4 HT4 Hc4)) as [GG RR].
     split; [exact GG|]. apply (fun h => At_rely _ _ _ _ _ _ _ _ h RR) in HA.
-    hv. apply (fun h => At_rely _ _ _ _ _ _ _ _ h (own_done t s6)) in HA.
+    (* the end of the call *)
+    intros s6 HR6. apply (fun h => At_rely _ _ _ _ _ _ _ _ h HR6) in HA. clear HR6.
+    assert (He : EndOk t s6 l4) by (left; exact Hs4). split; [exact He|].
+    apply (fun h => At_rely _ _ _ _ _ _ _ _ h (own_done t s6)) in HA.
+    apply (fun h => At_rely _ _ _ _ _ _ _ _ h (proj2 (callend_guar t (ls_log s6 (LaDone t)) l4 He))) in HA.
     refine (post_without_sec t P d _ r X Y _ _ _ _ HP HF HY _ HA); reflexivity.
   - (* forEach *)
     lck. lc. split; [quiet|].
-    pose proof (trpre_start s1 ll0 HG) as HT.
+    pose proof (trpre_start s1 (ll_begin B0) HG) as HT.
     intros s2 HR2. apply (fun h => At_rely _ _ _ _ _ _ _ _ h HR2) in HA.
     apply (fun h => TRpre_rely t _ _ _ h (proj1 HR2)) in HT. clear HR2.
     split; [exact (At_owns _ _ _ _ _ _ HA)|]. apply At_unlock in HA.
@@ -772,13 +884,19 @@ Proof.
     apply (fun h => At_rely _ _ _ _ _ _ _ _ h (own_load t s3)) in HA.
     apply (trinv_capture t) in HT.
     split; [exact (At_free _ _ _ _ _ _ HA)|]. split; [split; [exact HT|reflexivity]|].
-    intros s4 l4 HR4 [HT4 _] Hc4. apply (fun h => At_rely _ _ _ _ _ _ _ _ h HR4) in HA. clear HR4 HT.
+    intros s4 l4 HR4 [HT4 _] Hc4 Hs4. apply (fun h => At_rely _ _ _ _ _ _ _ _ h HR4) in HA. clear HR4 HT.
+    cbn [lsi ll_capt ll_start ll_begin] in Hs4.
+    (* the record of the traversal *)
     intros s5 HR5 HG5. apply (fun h => At_rely _ _ _ _ _ _ _ _ h HR5) in HA.
     apply (fun h => TRinv_rely t _ _ _ h (proj1 HR5)) in HT4. clear HR5.
     split; [intros X0; discriminate X0|].
     destruct (trav_guar t s5 t (lp0 l4) (length (lsecs s5)) (lvis l4) HG5 (trinv_end s5 l4 HT4 Hc4)) as [GG RR].
     split; [exact GG|]. apply (fun h => At_rely _ _ _ _ _ _ _ _ h RR) in HA.
-    hv. apply (fun h => At_rely _ _ _ _ _ _ _ _ h (own_done t s6)) in HA.
+    (* the end of the call *)
+    intros s6 HR6. apply (fun h => At_rely _ _ _ _ _ _ _ _ h HR6) in HA. clear HR6.
+    assert (He : EndOk t s6 l4) by (left; exact Hs4). split; [exact He|].
+    apply (fun h => At_rely _ _ _ _ _ _ _ _ h (own_done t s6)) in HA.
+    apply (fun h => At_rely _ _ _ _ _ _ _ _ h (proj2 (callend_guar t (ls_log s6 (LaDone t)) l4 He))) in HA.
     refine (post_without_sec t P d _ r X Y _ _ _ _ HP HF HY _ HA); reflexivity.
 Qed.
 
@@ -790,6 +908,23 @@ Proof. intros [[_ [_ [W _]]] _]. exact W. Qed.
 
 Lemma wrapped_own s a o : wrapped s -> wrapped (ls_own (ls_log s a) o).
 Proof. intros [u Hu]. exists u. right. exact Hu. Qed.
+
+(* the order flag may only be set once the counter has wrapped *)
+Lemma unord_ok t s :
+  GI s -> wrapped s ->
+  Guar t s (ls_unord s) /\ Rely t s (ls_unord s) /\ GI (ls_unord s) /\ lsecs (ls_unord s) = lsecs s /\
+  (wrapped s -> wrapped (ls_unord s)).
+Proof.
+  intros G W.
+  assert (GG : GI (ls_unord s)).
+  { destruct G as [G1 [G2 [G3 [G4 [G5 [G6 [G7 [G8 G9]]]]]]]]. unfold GI. cbn [lgrp lsecs lbad lcc lunord ls_unord].
+    split; [exact G1|]. split; [exact G2|]. split; [exact G3|]. split; [exact G4|]. split; [exact G5|]. split; [exact G6|].
+    split; [exact G7|]. split; [left; exact W|exact G9]. }
+  assert (R : forall u, Rely u s (ls_unord s)).
+  { intros u. split; [|reflexivity]. split; [reflexivity|]. split; [reflexivity|]. split; [auto|]. split; [intros _; exact GG|].
+    split; [exists []; reflexivity|right; cbn [lcc ls_unord]; lia]. }
+  split; [split; [intros _; exact GG|intros u _; apply R]|]. split; [apply R|]. split; [exact GG|]. split; [reflexivity|auto].
+Qed.
 
 Lemma TRinv_wrapped s l : GI s -> lp0 l <= length (lsecs s) -> wrapped s -> TRinv s l.
 Proof. intros G Hp W. split; [exact G|]. split; [exact Hp|left; exact W]. Qed.
@@ -809,18 +944,31 @@ Proof.
     assert (HT2 : TRinv s2 l) by (eapply TRinv_rely; [exact HT1|exact (proj1 HR2)]).
     match goal with |- Guar _ _ (fst ?r) /\ _ => set (r2 := r) end.
     assert (V : Guar t s2 (fst r2) /\ Rely t s2 (fst r2) /\ TRinv (fst r2) (snd r2) /\ lcur (snd r2) = Some n /\
-                (wrapped (fst r2) \/ lph (snd r2) = true)).
+                (wrapped (fst r2) \/ lph (snd r2) = true) /\ lsi (snd r2) = lsi l).
     { subst r2. destruct (node_of s2 n) as [nd|] eqn:En.
       - pose proof (trinv_look s2 l n nd HT2 Hph Ec En) as HL.
-        destruct (GenCL.visit_cond (ctr nd) (lcapt l)); cbn [fst snd].
-        + split; [destruct m; apply log_guar; intros; discriminate|].
-          split; [destruct m; apply log_rely; intros; discriminate|].
-          split; [|split; [exact Ec|right; reflexivity]].
-          eapply (TRinv_own s2); [reflexivity|apply log_GI; exact HG2|apply wrapped_log|exact HL].
-        + split; [apply Guar_refl|]. split; [apply Rely_refl|]. split; [exact HL|split; [exact Ec|right; reflexivity]].
+        destruct (GenCL.visit_cond (ctr nd) (lcapt l)) eqn:Ev; cbn [fst snd].
+        + set (s2u := if ordered_visit (lgrp s2) (lvis l) n then s2 else ls_unord s2).
+          assert (U : Guar t s2 s2u /\ Rely t s2 s2u /\ GI s2u /\ lsecs s2u = lsecs s2 /\ (wrapped s2 -> wrapped s2u)).
+          { subst s2u. destruct (ordered_visit (lgrp s2) (lvis l) n) eqn:Eo.
+            - split; [apply Guar_refl|split; [apply Rely_refl|split; [exact HG2|split; [reflexivity|auto]]]].
+            - (* then the counter has wrapped *)
+              assert (W : wrapped s2).
+              { destruct HT2 as [G [_ [W|HT2]]]; [exact W|exfalso].
+                assert (Eo' : ordered_visit (tg (tstate s2 l)) (tvis (tstate s2 l)) n = true).
+                { apply (visit_is_ordered (lcapt l) _ (tstate s2 l) n nd HT2); cbn [tstate tst_of tph tcur tg]; auto.
+                  unfold node_of in En. destruct G as [G1 _]. rewrite G1 in En. exact En. }
+                cbn [tstate tst_of tg tvis] in Eo'. destruct G as [G1 _]. rewrite <- G1 in Eo'. congruence. }
+              apply unord_ok; assumption. }
+          destruct U as [U1 [U2 [U3 [U4 U5]]]].
+          split; [eapply Guar_trans; [exact U1|]; destruct m; apply log_guar; intros; discriminate|].
+          split; [eapply Rely_trans; [exact U2|]; destruct m; apply log_rely; intros; discriminate|].
+          split; [|split; [exact Ec|split; [right; reflexivity|reflexivity]]].
+          eapply (TRinv_own s2); [cbn [lsecs ls_log]; exact U4|apply log_GI; exact U3|intros W; apply wrapped_log; auto|exact HL].
+        + split; [apply Guar_refl|]. split; [apply Rely_refl|]. split; [exact HL|split; [exact Ec|split; [right; reflexivity|reflexivity]]].
       - destruct (trinv_node s2 l n HT2 Ec) as [W|[nd E']]; [|congruence]. cbn [fst snd].
-        split; [apply Guar_refl|]. split; [apply Rely_refl|]. split; [exact HT2|split; [exact Ec|left; exact W]]. }
-    clearbody r2. destruct r2 as [s2' l2]. cbn [fst snd] in *. destruct V as [V1 [V2 [V3 [V4 V5]]]].
+        split; [apply Guar_refl|]. split; [apply Rely_refl|]. split; [exact HT2|split; [exact Ec|split; [left; exact W|reflexivity]]]. }
+    clearbody r2. destruct r2 as [s2' l2]. cbn [fst snd] in *. destruct V as [V1 [V2 [V3 [V4 [V5 V6]]]]].
     split; [exact V1|].
     (* the mutex *)
     intros s3 HR3.
@@ -840,15 +988,15 @@ Proof.
       eapply Rely_wrapped; [exact HR4|]. apply wrapped_own. eapply Rely_wrapped; [exact HR3|exact W]. }
     rewrite V4.
     match goal with |- Guar _ _ (fst ?r) /\ _ => set (r4 := r) end.
-    assert (S4 : fst r4 = s4 /\ LoopI s4 (snd r4)).
+    assert (S4 : fst r4 = s4 /\ LoopI s4 (snd r4) /\ lsi (snd r4) = lsi l2).
     { subst r4. destruct (node_of s4 n) as [nd|] eqn:En4; cbn [fst snd].
-      - split; [reflexivity|]. split; [|reflexivity].
+      - split; [reflexivity|]. split; [|reflexivity]. split; [|reflexivity].
         destruct W4 as [W|P2]; [apply TRinv_wrapped; [exact HG4|exact (proj1 (proj2 HT4))|exact W]|].
         exact (trinv_step s4 l2 n nd HT4 P2 V4 En4).
-      - split; [reflexivity|]. split; [|reflexivity].
+      - split; [reflexivity|]. split; [|reflexivity]. split; [|reflexivity].
         destruct (trinv_node s4 l2 n HT4 V4) as [W|[nd E']]; [|congruence].
         apply TRinv_wrapped; [exact HG4|exact (proj1 (proj2 HT4))|exact W]. }
-    clearbody r4. destruct r4 as [s4' l4]. cbn [fst snd] in *. destruct S4 as [-> [HT4' Hph4]].
+    clearbody r4. destruct r4 as [s4' l4]. cbn [fst snd] in *. destruct S4 as [-> [[HT4' Hph4] Hsi4]].
     split; [apply Guar_refl|].
     (* the mutex is given back *)
     intros s5 HR5.
@@ -857,7 +1005,7 @@ Proof.
     { apply (TRinv_own s5); [reflexivity| |apply wrapped_own|eapply TRinv_rely; [exact HT4'|exact (proj1 HR5)]].
       apply own_GI. exact (proj1 (TRinv_rely t _ _ _ HT4' (proj1 HR5))). }
     split; [cbn [lown ls_own]; discriminate|]. split; [split; [exact HT5|exact Hph4]|].
-    intros s6 l6 HR6 HL6 Hc6. apply H; [|exact HL6|exact Hc6]. split.
+    intros s6 l6 HR6 HL6 Hc6 Hs6. apply H; [|exact HL6|exact Hc6|congruence]. split.
     + eapply Rely0_trans; [exact (proj1 R03)|].
       eapply Rely0_trans; [apply (own_rely0 t s3 (LaLock t) (Some t)); intros; discriminate|].
       eapply Rely0_trans; [exact (proj1 HR4)|].
@@ -867,7 +1015,7 @@ Proof.
     + split; intros X; exfalso.
       * apply (proj2 HR6) in X. cbn [lown ls_own] in X. discriminate X.
       * exact (HO X).
-  - cbn [wcl]. apply H; [exact HR1|split; [exact HT1|exact Hph]|]. destruct (lcur l); [discriminate Hc|reflexivity].
+  - cbn [wcl]. apply H; [exact HR1|split; [exact HT1|exact Hph]| |reflexivity]. destruct (lcur l); [discriminate Hc|reflexivity].
 Qed.
 
 (* ---------- soundness along the machine ---------- *)
@@ -921,15 +1069,17 @@ Proof.
       * (* loop *)
         apply IH; [exact HG|]. apply loop_ok. exact HW.
       * (* res *)
-        cbn [wci] in HW. specialize (HW s (Rely_refl t s)).
+        cbn [wci] in HW. destruct (HW s (Rely_refl t s)) as [He HK].
         destruct (log_guar t s (LaRes t (lresb l))) as [G1 G2]; [intros u b0 E; inversion E; reflexivity|].
-        destruct (IH (ls_log s (LaRes t (lresb l))) rest cl l m (G1 HG) HW) as [A [B C]].
-        split; [exact A|]. split; [exact B|]. eapply others_trans; [exact G2|exact C].
+        destruct (callend_guar t (ls_log s (LaRes t (lresb l))) l He) as [[G3 G4] _].
+        destruct (IH (call_end t (ls_log s (LaRes t (lresb l))) l) rest cl l m (G3 (G1 HG)) HK) as [A [B C]].
+        split; [exact A|]. split; [exact B|]. eapply others_trans; [exact G2|]. eapply others_trans; [exact G4|exact C].
       * (* done *)
-        cbn [wci] in HW. specialize (HW s (Rely_refl t s)).
+        cbn [wci] in HW. destruct (HW s (Rely_refl t s)) as [He HK].
         destruct (log_guar t s (LaDone t)) as [G1 G2]; [intros; discriminate|].
-        destruct (IH (ls_log s (LaDone t)) rest cl l m (G1 HG) HW) as [A [B C]].
-        split; [exact A|]. split; [exact B|]. eapply others_trans; [exact G2|exact C].
+        destruct (callend_guar t (ls_log s (LaDone t)) l He) as [[G3 G4] _].
+        destruct (IH (call_end t (ls_log s (LaDone t)) l) rest cl l m (G3 (G1 HG)) HK) as [A [B C]].
+        split; [exact A|]. split; [exact B|]. eapply others_trans; [exact G2|]. eapply others_trans; [exact G4|exact C].
 Qed.
 
 (* the invariant over configurations: the global facts, every thread's assertion, and: whoever holds the mutex is a
@@ -1050,7 +1200,7 @@ Lemma init_ok : Inv ls0 (lstart progs).
 Proof.
   split; [|split].
   - split; [reflexivity|]. split; [exact I|]. split; [right; constructor|]. split; [reflexivity|]. split; [reflexivity|].
-    split; [right; intros z []|intros t p0 p1 vis []].
+    split; [right; intros z []|]. split; [intros t p0 p1 vis []|]. split; [right; reflexivity|intros t b i e []].
   - intros t th H. unfold lstart in H. rewrite nth_error_map in H.
     destruct (nth_error progs t) as [p|] eqn:Ep; [|discriminate]. inversion H; subst th. clear H.
     unfold th_ok. cbn [lfin lcode lcalls lloc wcl wci veff fst snd].
@@ -1168,8 +1318,41 @@ Theorem finished_traversals_visit_what_stayed t p0 p1 vis :
   forall z, In z (ids_rec (old_rec (lsecs s) p0)) -> ~ In z (gone_rec (new_rec (old_rec (lsecs s) p1) p0)) -> In z vis.
 Proof.
   intros NW Hin.
-  destruct (projection_every_schedule progs fuel sch) as [[_ [_ [_ [_ [_ [_ G7]]]]]] _]. fold s in G7.
+  destruct (projection_every_schedule progs fuel sch) as [[_ [_ [_ [_ [_ [_ [G7 _]]]]]]] _]. fold s in G7.
   destruct (G7 t p0 p1 vis Hin) as [A [B [C|[C D]]]]; [contradiction|]. repeat split; assumption.
+Qed.
+
+(* 4'. real-time order.  Every finished call is recorded (ghost lcrec) as (thread, b, i, e): b / e = the number of sections
+       executed when the call began / ended, i = the position of the call's own section in the record (0: the call has
+       none).  A call's section is executed after the call began and before it ended, and it is the calling thread's *)
+Theorem calls_take_effect_between_their_ends t b i e :
+  In (t, b, i, e) (lcrec s) -> i <> 0 ->
+  b < i /\ i <= e /\ e <= length (lsecs s) /\ exists sc r, nth_error (secs_of s) (i - 1) = Some sc /\ nth_error (rev (lsecs s)) (i - 1) = Some (t, sc, r).
+Proof.
+  intros Hin Hi.
+  destruct (projection_every_schedule progs fuel sch) as [[_ [_ [_ [_ [_ [_ [_ [_ G9]]]]]]]] _]. fold s in G9.
+  destruct (G9 t b i e Hin) as [A [B|[B [C [sc [r D]]]]]]; [contradiction|].
+  split; [exact B|]. split; [exact C|]. split; [exact A|]. exists sc, r. split; [|exact D].
+  unfold secs_of. rewrite <- map_rev. rewrite (map_nth_error esec _ _ D). reflexivity.
+Qed.
+
+(*     hence: of two finished calls with sections, the one that ended when no more sections had been executed than when
+       the other began — in particular every call that returned before the other was issued — has its section earlier
+       in the order of 2. *)
+Corollary real_time_order_is_respected t1 b1 i1 e1 t2 b2 i2 e2 :
+  In (t1, b1, i1, e1) (lcrec s) -> In (t2, b2, i2, e2) (lcrec s) -> i1 <> 0 -> i2 <> 0 ->
+  e1 <= b2 -> i1 < i2.
+Proof.
+  intros H1 H2 N1 N2 Hle.
+  destruct (calls_take_effect_between_their_ends _ _ _ _ H1 N1) as [_ [A _]].
+  destruct (calls_take_effect_between_their_ends _ _ _ _ H2 N2) as [B _]. lia.
+Qed.
+
+(* 5. list order of the visits: unless the counter wrapped, no traversal ever visited a node while a node it had
+      visited earlier, and that was still in the list at that moment, did not stand before it in the list *)
+Theorem visits_follow_list_order : ~ wrapped s -> lunord s = false.
+Proof.
+  intros NW. destruct (projection_every_schedule progs fuel sch) as [[_ [_ [_ [_ [_ [_ [_ [[W|G8] _]]]]]]]] _]; [contradiction|exact G8].
 Qed.
 
 End HEADLINE.
@@ -1233,4 +1416,13 @@ Example traversal_example :
   gone_rec (new_rec (old_rec (lsecs s) 5) 3) = [1] /\
   secs_of s = [SBack 1 1; SBack 2 2; SBack 3 3; SRemove (Some 1); SBack 4 4] /\
   filter (fun a => match a with LaCall _ _ _ => true | _ => false end) (rev (llog s)) = [LaCall 0 1 7; LaCall 0 3 7].
+Proof. vm_compute. repeat split. Qed.
+
+(* the order flag is not constant: a (made-up) traversal that claims to have visited node 1 and now visits node 0 of the
+   list [0; 1] sets it; one that visited 0 and now visits 1 does not *)
+Definition two_appends : lshared := fst (lrun 100 ls0 (lstart [[LAppend 1 0; LAppend 2 1]]) []).
+Example order_flag_can_be_set :
+  list_ids (lgrp two_appends) = [0; 1] /\
+  lunord (fst (ladvance 3 0 two_appends (mkLT (loop_body None) [] (mkLL None 0 None (Some 0) 5%N false [1] false 2 0 0) false None))) = true /\
+  lunord (fst (ladvance 3 0 two_appends (mkLT (loop_body None) [] (mkLL None 0 None (Some 1) 5%N false [0] false 2 0 0) false None))) = false.
 Proof. vm_compute. repeat split. Qed.
